@@ -1,6 +1,7 @@
 SPECIFICATION ImplSpec
 CONSTANTS
   Shapes <- MCShapes
+  Journal = "disk"
   Mode = "implemented"
 CONSTRAINT Tally
 POSTCONDITION Stats
